@@ -147,6 +147,52 @@ M.BASIS_IMPLS.update({
     ('binop', '?!='): _opt_ne,
 })
 
+# ------------------------------------------------------------------ late shape re-inference (observer)
+# viewgen.late_compile_view_shapes re-applies the shape of a view type where that type is exposed
+# again without a SELECT to push it into (result of assert_*/DISTINCT/enumerate/tuple
+# indirection, an aliased FILTER subject, a FOR iterator reused as the body ...).  The re-applied
+# elements INLINE the computed pointers (irast.Pointer.expr set, is_definition False) and are
+# inferred a second time in the OUTER scope, where a FOR variable bound between the two places is
+# no longer visible and counts with the cardinality / multiplicity of its iterator set.  The only
+# thing this second inference can add to the first is a rejection.  Model.v does not model it, so
+# the driver tells the comparison when a rejection was raised from inside such a re-applied shape.
+_LATE_DEPTH = [0]
+
+
+def _is_late_shape(ir):
+    for el, _op in (getattr(ir, 'shape', None) or ()):
+        p = getattr(el, 'expr', None)
+        if isinstance(p, irast.Pointer) and p.expr is not None and not p.is_definition:
+            return True
+    return False
+
+
+def _observe_late_shapes(mod):
+    orig = mod._infer_shape
+
+    def _infer_shape(ir, **kw):
+        late = _is_late_shape(ir)
+        if late:
+            _LATE_DEPTH[0] += 1
+        try:
+            return orig(ir, **kw)
+        except errors.EdgeDBError as e:
+            if _LATE_DEPTH[0] > 0:
+                e._c06_late_shape = True
+            raise
+        finally:
+            if late:
+                _LATE_DEPTH[0] -= 1
+    _infer_shape.__wrapped__ = orig
+    mod._infer_shape = _infer_shape
+
+
+from edb.edgeql.compiler.inference import cardinality as _inf_card  # noqa: E402
+from edb.edgeql.compiler.inference import multiplicity as _inf_mult  # noqa: E402
+
+_observe_late_shapes(_inf_card)
+_observe_late_shapes(_inf_mult)
+
 # ------------------------------------------------------------------ schema cache
 
 _SCHEMAS: dict = {}
@@ -226,10 +272,11 @@ def find_shape_set(s):
 
 
 def compile_q(schema, text):
+    _LATE_DEPTH[0] = 0
     try:
         ir = vrt.compile_query(schema, text)
     except errors.EdgeDBError as e:
-        return {'err': classify_error(e)}
+        return {'err': classify_error(e), 'late': bool(getattr(e, '_c06_late_shape', False))}
     except (AssertionError, KeyError, AttributeError, ValueError, TypeError, IndexError, RecursionError) as e:
         return {'err': f'E:internal:{type(e).__name__}:{str(e)[:100]}'}
     out = {'err': None, 'c': str(ir.cardinality.value), 'm': str(ir.multiplicity.value), 'sh': []}
